@@ -411,6 +411,9 @@ class CallMixin(object):
 
   def call_opaque(self, fv, args, kw, st, star=None, dstar=None, kind='call', label=None):
     fn_t = to_u(fv, st) if fv is not None else None
+    if self.contract is not None and kind == 'call':
+      for i, r in enumerate(self.contract.opaque_requires):
+        self.oblige('at-callback/requires/%d' % i, st, self.spec_bool(r, self.spec_ctx(st)), detail=r)
     ev = Event(kind, label if label else fn_t, [to_u(a, st) for a in args],
                {k: to_u(v, st) for k, v in kw.items()},
                to_u(star, st) if star is not None else None,
@@ -611,6 +614,16 @@ class CallMixin(object):
       oldlen, olditem = h.get('len'), h.get('item')
       st.heap = h.with_('len', upd1(oldlen, l.t, la + lb)).with_(
           'item', lambda x, i: z3.If(z3.And(x == l.t, i >= la), ib(i - la), olditem(x, i)))
+      yield st, VNone
+    elif meth == 'insert' and isinstance(args[0], VInt):
+      oldlen, olditem = h.get('len'), h.get('item')
+      n0 = oldlen(l.t)
+      k = args[0].t
+      k = z3.If(k < 0, z3.If(k + n0 < 0, 0, k + n0), z3.If(k > n0, n0, k))
+      u = to_u(args[1], st)
+      st.heap = h.with_('len', upd1(oldlen, l.t, n0 + 1)).with_(
+          'item', lambda x, i: z3.If(x == l.t, z3.If(i < k, olditem(x, i), z3.If(i == k, u, olditem(x, i - 1))),
+                                     olditem(x, i)))
       yield st, VNone
     elif meth == 'index' or meth == 'count':
       raise Unsupported('list.%s' % meth)
